@@ -39,7 +39,7 @@ diff -r "$WORK/out" "$WORK/out2" > /dev/null && echo "second run: byte-identical
 coqc_() { (cd "$WORK/coq" && timeout 1800 coqc -Q theories Cqos -w -notation-overridden "theories/$1.v"); }
 
 echo "== compile the models, GoSem and every generated file"
-for f in Base Float64 Divider Sched RateConv Prio2 Prio2Sim Utils Limit LimitSim Join JoinSim GoSem GoConc; do coqc_ $f; done
+for f in Base Float64 Divider Sched RateConv Prio2 Prio2Sim Utils Limit LimitSim Join JoinSim Prio1 Prio1Sim GoSem GoConc; do coqc_ $f; done
 cp "$WORK"/out/Gen*.v "$WORK/coq/theories/"
 for f in "$WORK"/out/Gen[!C]*.v "$WORK"/out/GenConc*.v; do    # part 1 first: GenConc*.v import it
   n=$(basename "$f" .v)
@@ -83,4 +83,7 @@ coqc_ CasesConcJoinV2
 python3 "$HERE/validate/gen_conc_unite_cases.py" "$WORK/coq/theories/CasesConcUnite.v"
 coqc_ CasesConcUnite
 /usr/bin/time -f "ValConcUnite.v: %es" bash -c "cd '$WORK/coq' && timeout 3600 coqc -Q theories Cqos theories/ValConcUnite.v"
+python3 "$HERE/validate/gen_conc_v1prio_cases.py" "$WORK/coq/theories/CasesConcV1Prio.v"
+coqc_ CasesConcV1Prio
+/usr/bin/time -f "ValConcV1Prio.v: %es" bash -c "cd '$WORK/coq' && timeout 3600 coqc -Q theories Cqos theories/ValConcV1Prio.v"
 echo "== validation passed"
